@@ -276,6 +276,7 @@ impl KBytes {
 thread_local! {
     static BUILDS_OK: Cell<u64> = const { Cell::new(0) };
     static BUILDS_RETRIED: Cell<u64> = const { Cell::new(0) };
+    static PEEL_RETRY: Cell<u64> = const { Cell::new(0) };
     static MAX_ATTEMPTS: Cell<u64> = const { Cell::new(0) };
     static BUILDS_SLOW: Cell<u64> = const { Cell::new(0) };
     static ABANDONED: Cell<u64> = const { Cell::new(0) };
@@ -364,6 +365,9 @@ fn run_func<W: Wd, F>(
     bump(&BUILDS_OK, 1);
     if attempts > 1 {
         bump(&BUILDS_RETRIED, 1);
+        if s.group == "peel-retry" {
+            bump(&PEEL_RETRY, 1);
+        }
     }
     if attempts > SOFT_ATTEMPTS as u64 {
         bump(&BUILDS_SLOW, 1);
@@ -742,6 +746,27 @@ fn main() {
         }
     }
 
+    // 3b. key counts at which the unsharded fuse graph (peeling, no lazy Gaussian
+    //     elimination) is known to fail its first attempts on this code base, so
+    //     that the retry after an incomplete peeling is exercised (release builds;
+    //     the note c07_counters.peel_regime_builds_that_retried says whether it was)
+    if !debug && lim.max_n > 200_000 {
+        let ns: &[usize] = if thorough { &[126_191, 126_288, 126_359, 126_385, 126_401, 126_450, 126_482, 126_499, 126_520] } else { &[126_359, 126_401, 126_450, 126_499] };
+        for v in 0..VARIANTS.len() {
+            if !VARIANTS[v].name.contains("NoShards") || !VARIANTS[v].int_keys {
+                continue;
+            }
+            for (i, &n) in ns.iter().enumerate() {
+                for (j, seed) in [0u64, 0, 1].into_iter().enumerate() {
+                    let cfg = Cfg { seed, low_mem: [None, Some(true), Some(false)][(i + j) % 3], hint: [Hint::Absent, Hint::Exact][(i + j) % 2], ..Cfg::default() };
+                    let vals = if j == 0 { ValKind::Identity } else { rand_vals(&mut r, VARIANTS[v].bits) };
+                    let s = scn(&mut r, "peel-retry", n, vals, cfg);
+                    run(&mut ctx, v, s);
+                }
+            }
+        }
+    }
+
     // 4. multi-shard sizes: thread counts x peeling/memory strategy x too-small hint (sharded logics only)
     {
         let mut sizes: Vec<usize> = vec![100_000, 163_840, 200_000];
@@ -859,9 +884,10 @@ fn main() {
         );
     }
     let counters = format!(
-        "{{\"builds_ok\":{},\"builds_needing_retries\":{},\"slow_convergence_builds_over_64_attempts\":{},\"abandoned_after_a_no_progress_violation\":{},\"pairs_checked\":{},\"unaligned_pairs_checked\":{}}}",
+        "{{\"builds_ok\":{},\"builds_needing_retries\":{},\"peel_regime_builds_that_retried\":{},\"slow_convergence_builds_over_64_attempts\":{},\"abandoned_after_a_no_progress_violation\":{},\"pairs_checked\":{},\"unaligned_pairs_checked\":{}}}",
         BUILDS_OK.with(|c| c.get()),
         BUILDS_RETRIED.with(|c| c.get()),
+        PEEL_RETRY.with(|c| c.get()),
         BUILDS_SLOW.with(|c| c.get()),
         ABANDONED.with(|c| c.get()),
         PAIRS.with(|c| c.get()),
